@@ -751,7 +751,7 @@ func c16Scenarios(tier string) []Scenario {
 func init() {
 	register(&Property{ID: "C16", Level: "exploration",
 		Technique: "bounded-exhaustive enumeration of walks and stats over constructed trees against the real Ufs, compared with os.Lstat",
-		Rule:      "4 constructed trees (files, directories, symlinks to file/dir/dangling, hard links, names with spaces, dots, non-ASCII and non-UTF-8 bytes, 255-byte names, a 40-level chain, a socket, a block and a character device node, modes 0000-0777, modification times before 1970 (with fractions of a second), at the epoch and beyond 2038, a >4 GiB sparse file); for every node and k in 0..1 (thorough 4) missing trailing elements: the walk from the root (and from every ancestor) as one Twalk (<= 16 elements) to a new fid and in place, Tstat of both fids afterwards and again once the new fid is open, stat of every node in both dialects, every element list of length <= 4 (thorough 5) with '..' behind symbolic links to directories compared with the host's own resolution, Clnt.FStat of every path and of a missing child; every element list of length <= 3 (thorough 4) over a tree with unsearchable and unlistable directories, served by an ordinary user, compared with that user's lstat. non-trivial = walks/stats compared ; partial and full walks of 1..16 names at msize 64..256; element lists over links that exist but cannot be followed (self-loop, cycle, through a regular file)",
+		Rule:      "4 constructed trees (files, directories, symlinks to file/dir/dangling, hard links, names with spaces, dots, non-ASCII and non-UTF-8 bytes, 255-byte names, a 40-level chain, a socket, a block and a character device node, modes 0000-0777, modification times before 1970 (with fractions of a second), at the epoch and beyond 2038, a >4 GiB sparse file); for every node and k in 0..1 (thorough 4) missing trailing elements: the walk from the root (and from every ancestor) as one Twalk (<= 16 elements) to a new fid and in place, Tstat of both fids afterwards and again once the new fid is open, stat of every node in both dialects, every element list of length <= 4 (thorough 5) with '..' behind symbolic links to directories compared with the host's own resolution, Clnt.FStat of every path and of a missing child; every element list of length <= 3 (thorough 4) over a tree with unsearchable and unlistable directories, served by an ordinary user, compared with that user's lstat. non-trivial = walks/stats compared ; partial and full walks of 1..16 names at msize 64..256; element lists over links that exist but cannot be followed (self-loop, cycle, through a regular file) ; stat of procfs entries whose lstat size is 0",
 		Assumptions: []string{"the host file system and os.Lstat are the reference; one scenario serves a tree with unsearchable directories with the effective ids of an ordinary user, the others run as the sandbox user", "random trees of the quantifier are sampling and not claimed"},
 		Scenarios:   c16Scenarios, QuickS: 100, ThoroughS: 600})
 }
